@@ -57,6 +57,14 @@ CHECKS = {
             "alias == base, MIME-independence of routed extensions, and read_file dispatch observed through stubs on real temp files.",
             "Trusts the README tables as the specification of routing; Windows path semantics are not observable on this host.",
             "DESIGN.md §8 C07"),
+    "C08": ("exploration",
+            "(plain, protected-or-lookalike) pairs per protection mechanism built from generated documents; exception-surface monitor through three entry points; PDFs encrypted by an independent AES",
+            "For OOXML-in-OLE (EncryptionInfo/EncryptedPackage/DataSpaces), ODF manifest encryption-data (two namespace spellings) and look-alike plain manifests, DOC FIB flag, XLS FILEPASS at three record positions, "
+            "PPT encrypted-summary streams, ZIP flag bit on first/last/only member, 7z AES coder in the main folder / one of several folders / the encoded header, EPUB encryption.xml / rights.xml / empty encryption.xml, "
+            "PDF RC4-40/128 and AES-128/256 with empty and non-empty user password, and the 11 protected fixtures: the protected member must raise the file-encrypted error before any result through the direct extractor, "
+            "read_file and the CLI; the plain member must never be rejected as encrypted; an empty-password PDF must extract the same text/units/images as its original.",
+            "Protected OOXML/legacy files are marker containers, not real ciphertext (the property is about rejection before content); PDFs are really encrypted (pypdf writer over the reference AES).",
+            "DESIGN.md §8 C08"),
     "C09": ("exploration",
             "CPython audit-hook file-system monitor (open/mkdir/remove/rename/link/chmod/utime/scandir/rmtree/mkdtemp..., dir_fd resolved via /proc/self/fd), canary files, result scan, private-TMPDIR post-state, x 4 consumer behaviours",
             "Archives in 23 layouts over a hostile member-name grammar (absolute, ../ chains, mixed separators, drive letters, empty, very long, unicode, names of existing host files, tar symlink/hardlink/device/fifo members, "
